@@ -24,9 +24,9 @@ from .simrandom import (SimAbort, SimBudget, SimFault, HarnessError, Source, _Re
 
 VERIF_DIR = os.path.dirname(os.path.dirname(os.path.abspath(__file__)))
 REPO = os.environ.get("VERIF_REPO", "/repo")
-OUT_DIR = os.path.join(VERIF_DIR, "out")
+OUT_DIR = os.environ.get("VERIF_OUT_DIR") or os.path.join(VERIF_DIR, "out")
 REPLAY_DIR = os.path.join(OUT_DIR, "replays")
-EVIDENCE_DIR = os.path.join(VERIF_DIR, "evidence")
+EVIDENCE_DIR = os.environ.get("VERIF_EVIDENCE_DIR") or os.path.join(VERIF_DIR, "evidence")
 KNOWN_FILE = os.path.join(VERIF_DIR, "known_findings.json")
 
 CLAIMED = ["C01", "C02", "C03", "C05", "C09", "C10", "C11", "C12", "C13", "C15", "C17", "C18", "C20"]
@@ -267,6 +267,17 @@ def _chunk(args):
     return out
 
 
+def _dist_chunk(args):
+    cid, sc, base_seed, tag, start, stop = args
+    faulthandler.dump_traceback_later(900, exit=True)
+    check = load_check(cid)
+    try:
+        return check.dist_runs(sc, base_seed, tag, start, stop)
+    finally:
+        simrandom.SIM.src = None
+        faulthandler.cancel_dump_traceback_later()
+
+
 class Engine:
     def __init__(self, cid, tier="quick", seed=0, workers=None, budget_s=None):
         self.cid = cid
@@ -326,6 +337,22 @@ class Engine:
             self.outcomes.update(out["outcomes"])
             self.fail.extend(out["fail"])
         return n_runs
+
+    def distribution(self, sc, n, tag, chunk=2500):
+        """n i.i.d. uniform runs of one scenario; returns Counter of outcome keys.  The check module
+        supplies dist_runs(sc, base_seed, tag, start, stop) -> (Counter, set of execution digests)."""
+        jobs = [(self.cid, sc, self.seed, tag, a, min(a + chunk, n)) for a in range(0, n, chunk)]
+        total = Counter()
+        digs = set()
+        for cnt, dg in self.map(_dist_chunk, jobs):
+            total.update(cnt)
+            if len(digs) < 300000:
+                digs.update(dg)
+        self.stats["decisions"] += total.pop("__decisions__", 0)
+        self.stats["operations"] += n
+        self.extra["dist_runs"] = self.extra.get("dist_runs", 0) + n
+        self.extra["dist_distinct"] = self.extra.get("dist_distinct", 0) + len(digs)
+        return total
 
     def search_for(self, seconds, round_runs, start=0, max_runs=None):
         """Rounds of `round_runs` runs until the wall budget is used (thorough tier)."""
